@@ -200,36 +200,59 @@ func (p *player) evaluate(op optimize.Operation) {
 	}
 }
 
+// start hands a new, complete location to LinesearchMethod.Init.  run > 0: the LinesearchMethod value
+// (and the scripted Linesearcher / NextDirectioner) has been used for run earlier runs of this
+// behaviour, which were stopped or failed at the place the specification chose ("reinit").
+func (p *player) start(lsm *optimize.LinesearchMethod, run int) (optimize.Operation, error) {
+	r := float64(run)
+	p.loc = &optimize.Location{X: []float64{3 + r, -2 - 2*r}, F: 50 - 7*r, Gradient: []float64{2 + r, -1 - 3*r}}
+	if p.c.WithH == 1 {
+		p.loc.Hessian = mat.NewSymDense(2, []float64{1 + r, 0, 0, 1})
+	}
+	p.lastX = p.lastX[:0]
+	return lsm.Init(p.loc)
+}
+
 // play runs one behaviour on lsm (which may have been used before: Init has to reset it).
 func (p *player) play(lsm *optimize.LinesearchMethod) {
 	lsm.NextDirectioner, lsm.Linesearcher = p, p
-	p.loc = &optimize.Location{X: []float64{3, -2}, F: 50, Gradient: []float64{2, -1}}
-	if p.c.WithH == 1 {
-		p.loc.Hessian = mat.NewSymDense(2, []float64{1, 0, 0, 1})
-	}
-	loc := p.loc
 	var op optimize.Operation
 	var err error
+	run := 0
+	// again: the behaviour goes on with another run on the same LinesearchMethod value
+	again := func() bool {
+		if p.peek().K != "reinit" {
+			return false
+		}
+		p.i++
+		run++
+		op, err = p.start(lsm, run)
+		return true
+	}
 	o := core.Call(func() {
-		op, err = lsm.Init(loc)
-		for step := 0; step < 200; step++ {
+		op, err = p.start(lsm, run)
+		for step := 0; step < 400; step++ {
+			loc := p.loc
 			e := p.peek()
 			switch e.K {
 			case "fail":
 				p.i++
 				if err == nil {
 					p.fail("LinesearchMethod returned op=%s without error, expected error %q", opString(op), e.Err)
-				} else {
-					got := errString(err)
-					if errors.Is(err, errScripted) {
-						got = "other"
-					}
-					if got != e.Err {
-						p.fail("LinesearchMethod returned error %q (%v), expected %q", got, err, e.Err)
-					}
-					if op != optimize.NoOperation {
-						p.fail("LinesearchMethod returned op=%s with an error", opString(op))
-					}
+					return
+				}
+				got := errString(err)
+				if errors.Is(err, errScripted) {
+					got = "other"
+				}
+				if got != e.Err {
+					p.fail("LinesearchMethod returned error %q (%v), expected %q", got, err, e.Err)
+				}
+				if op != optimize.NoOperation {
+					p.fail("LinesearchMethod returned op=%s with an error", opString(op))
+				}
+				if len(p.bad) == 0 && again() {
+					continue
 				}
 				return
 			case "eval":
@@ -262,13 +285,19 @@ func (p *player) play(lsm *optimize.LinesearchMethod) {
 				if !sameVec(loc.X, p.lastX) || math.Float64bits(loc.F) != p.fbits {
 					p.fail("MajorIteration at X=%v F=%v, accepted point was X=%v F=%v", loc.X, loc.F, p.lastX, math.Float64frombits(p.fbits))
 				}
+			case "end":
+				// the run is stopped before LinesearchMethod has answered anything (right after Init / a reinit)
 			default:
 				p.fail("LinesearchMethod returned op=%s err=%v while the specification expects a Linesearcher call (%q)", opString(op), err, e.K)
 				return
 			}
-			// the bound of the model ends the behaviour here: the driver stops
+			// the driver stops the run here: the bound of the model, or a stop followed by another run on
+			// the same value
 			if p.peek().K == "end" {
 				p.i++
+				if again() {
+					continue
+				}
 				return
 			}
 			op, err = lsm.Iterate(loc)
@@ -299,7 +328,7 @@ func replay(in *core.Lines, args []string, seed int64, sum *core.Summary) error 
 			return fmt.Errorf("case %d: %v", in.N, err)
 		}
 		sum.Cases++
-		iters, majors := 0, 0
+		iters, majors, reinits := 0, 0, 0
 		for _, e := range c.Ev {
 			if e.K == "iter" {
 				iters++
@@ -307,22 +336,32 @@ func replay(in *core.Lines, args []string, seed int64, sum *core.Summary) error 
 			if e.K == "major" {
 				majors++
 			}
+			if e.K == "reinit" {
+				reinits++
+			}
 		}
+		sum.Count("runs on a used LinesearchMethod value (reinit)", reinits)
 		if iters > 0 {
 			sum.Nontrivial++
 		}
 		sum.Count("scripted Linesearcher.Iterate calls", iters)
 		sum.Count("expected MajorIterations", majors)
-		// alternate between a fresh LinesearchMethod and one left behind by earlier behaviours
+		// alternate between a fresh LinesearchMethod and one left behind by earlier behaviours; a
+		// behaviour that re-initialises its LinesearchMethod value itself ("reinit") starts on a fresh
+		// one, so that it fails or passes on its own
 		lsm := shared
-		if n%2 == 0 {
+		if n%2 == 0 || reinits > 0 {
 			lsm = &optimize.LinesearchMethod{}
 		}
 		p := &player{c: c}
 		p.play(lsm)
 		if len(p.bad) > 0 {
 			last := c.Ev[len(c.Ev)-1]
-			sum.Fail("linesearch:lsm:"+last.K+last.Err, strings.Join(p.bad, "; "), json.RawMessage(append([]byte(nil), b...)))
+			sig := "linesearch:lsm:" + last.K + last.Err
+			if reinits > 0 {
+				sig = "linesearch:lsm-reinit:" + last.K + last.Err
+			}
+			sum.Fail(sig, strings.Join(p.bad, "; "), json.RawMessage(append([]byte(nil), b...)))
 		} else if n%997 == 0 {
 			sum.Sample(json.RawMessage(append([]byte(nil), b...)))
 		}
